@@ -52,6 +52,7 @@ class Unit(object):
         self.spec_funcs = {}                     # name -> z3 function usable in contract expressions
         self.ghost_params = []                   # params that are ghost state: bound from the caller's like-named ghost
         self.global_callees = {}                 # bare-name callees (module functions): name -> VFun
+        self.builtin_overrides = {}              # built-in name -> VFun (e.g. getattr/setattr/hasattr on a modelled class)
         self.defs = defs or {}
         self.prebind = prebind or {}
         self.uses_join = uses_join
@@ -124,6 +125,7 @@ class Executor(EvalMixin, MethodsMixin, ExecMixin):
             self.method_contracts[key] = self.callee_from_unit(cu)
         self.ghost_names = set()
         self.builtins = self.make_builtins()
+        self.builtins.update(getattr(unit, "builtin_overrides", {}))
         self.special_forms = self.make_special_forms()
         self.install_folds()
         for dn, (dargs, dbody) in unit.defs.items():
@@ -178,6 +180,8 @@ class Executor(EvalMixin, MethodsMixin, ExecMixin):
                         env2[nm] = kw[nm]
                     elif nm in cu.defaults:
                         env2[nm] = self.make_value(("const", cu.defaults[nm]), st, nm)
+                    elif self.real_default(cu, nm) is not None:
+                        env2[nm] = self.make_value(("const", self.real_default(cu, nm)[0]), st, nm)
                     else:
                         raise OutOfSubset("call of %s lacks argument %s" % (cu.name, nm), node)
                 saved_env = st.env
@@ -214,6 +218,11 @@ class Executor(EvalMixin, MethodsMixin, ExecMixin):
                             st.heap[v.oid] = self.fresh_cell(st.heap[v.oid], st, cu.name + "_" + m.replace(".", "_"))
                         else:
                             raise ContractError("modifies %s of %s is not a heap cell" % (m, cu.name))
+                    if not cu.result and any(isinstance(n_, ast.Name) and n_.id == "result"
+                                             for e_ in cu.ensures for n_ in ast.walk(parse_expr(e_))):
+                        # a contract that speaks about `result` must say what kind of value it is: assuming
+                        # `None == <spec>` would silently end the caller's path
+                        raise ContractError("callee %s: ensures mention `result` but the unit declares no result kind" % cu.name)
                     res = self.make_value(cu.result, st, cu.name + "_result") if cu.result else VNone()
                     st.env["result"] = res
                     for cls in sorted(cu.raises):
@@ -243,6 +252,23 @@ class Executor(EvalMixin, MethodsMixin, ExecMixin):
             return st.alloc(HObj(cell.cls, f))
         return st.alloc(cell)
 
+    def real_default(self, cu, nm):
+        """(value,) of the literal default of parameter `nm` in the callee's real signature, read from the source"""
+        path, qual = cu.target.split("::")
+        try:
+            fn = find_function(ast.parse(open(os.path.join(self.repo, path)).read()), qual)
+            a = fn.args
+            pos = a.posonlyargs + a.args
+            for arg, dflt in zip(pos[len(pos) - len(a.defaults):], a.defaults):
+                if arg.arg == nm:
+                    return (ast.literal_eval(dflt),)
+            for arg, dflt in zip(a.kwonlyargs, a.kw_defaults):
+                if arg.arg == nm and dflt is not None:
+                    return (ast.literal_eval(dflt),)
+        except (OSError, ValueError, ContractError, SyntaxError):
+            return None
+        return None
+
     def make_specfun(self, zf):
         def sf(node, st):
             args = [getattr(v_, "val", v_).e for v_ in (self.ev(a, st) for a in node.args)]
@@ -260,6 +286,8 @@ class Executor(EvalMixin, MethodsMixin, ExecMixin):
                     return VInt(r)
                 if srt == BoolS:
                     return VBool(r)
+                if srt == PyVal:
+                    return VPy(r)
             raise OutOfSubset("spec function result sort")
         return sf
 
